@@ -542,6 +542,20 @@ MustOffer(s, p) ==
        {Pref(f.lvl.named[k]) : k \in {k \in DOMAIN f.lvl.named :
             /\ ~f.lvl.named[k].hidden /\ NameMatches(f.lvl.named[k], p)
             /\ ~(SingleUse(f.lvl.named[k]) /\ f.acc[f.lvl.named[k].id] # <<>>)}}
+\* after `--` whatever is being typed is data for the next positional item with room: its metavariable is the hint
+\* completion must show, however the typed word looks ("" = the specification makes no statement)
+RECURSIVE NextSlot(_, _)
+NextSlot(items, n) == IF items = <<>> THEN ""
+                      ELSE IF Head(items).arity \in {"many", "some"} \/ n = 0 THEN Head(items).metavar
+                      ELSE NextSlot(Tail(items), n - 1)
+PosHint(s) ==
+  LET f == Cur(s) IN
+  IF ~s.posOnly \/ f.lvl.tail.kind # "pos" THEN ""
+  ELSE LET items == f.lvl.tail.items IN
+       IF /\ \A i \in DOMAIN items : items[i].strict \in {"any", "strict"} /\ ~items[i].hidden /\ items[i].vt # "int"
+                                      /\ ("completer" \notin DOMAIN items[i] \/ items[i].completer = <<>>)
+          /\ ((\A i \in DOMAIN items : items[i].strict = "any") \/ (\A j \in DOMAIN f.pos : f.pos[j].after))
+       THEN NextSlot(items, Len(f.pos)) ELSE ""
 \* partial items worth asking about for a definition
 Partials(d) ==
   {[k |-> "fresh"], [k |-> "dash"], [k |-> "long", cs |-> <<>>]}
